@@ -612,7 +612,7 @@ func c14Metadata(c *core.Ctx, mine func() bool) {
 				c.Violation("C14/panic/"+fr, fmt.Sprint(v), desc)
 				return
 			}
-			if rec.Code == http.StatusNoContent {
+			if rec.Code >= 200 && rec.Code < 300 {
 				var svc samlidp.Service
 				if err := srv.Store.Get("/services/s1", &svc); err == nil {
 					judge(desc, doc, &svc.Metadata, "PUT /services")
